@@ -501,8 +501,9 @@ class Parser:
         name = str(self._current_token)
         self.next_token()
         if self._detect_routine_start():
-            if not self._context.get_routine(name).undefined:
-                return self.token_error('Already defined: "{}"')
+            if self._context.has_symbol(name):
+                return self.trigger_error(
+                    'Already defined: "{}"'.format(name))
             return self._routine_definition(name)
         return self._macro_definition(name)
 
